@@ -1494,9 +1494,19 @@ _ical_proc(struct ical_parser_s p[static 1U])
 				/* bang umask */
 				p->ve.t.max_simul = p->globve.t.max_simul;
 			}
+			/* bang run_as, member by member, an event's own
+			 * LOCATION or shell must survive a missing SETUID */
 			if (!p->ve.t.run_as.u) {
-				/* bang run_as */
-				p->ve.t.run_as = p->globve.t.run_as;
+				p->ve.t.run_as.u = p->globve.t.run_as.u;
+			}
+			if (!p->ve.t.run_as.g) {
+				p->ve.t.run_as.g = p->globve.t.run_as.g;
+			}
+			if (p->ve.t.run_as.wd == NULL) {
+				p->ve.t.run_as.wd = p->globve.t.run_as.wd;
+			}
+			if (p->ve.t.run_as.sh == NULL) {
+				p->ve.t.run_as.sh = p->globve.t.run_as.sh;
 			}
 			/* copy global scale */
 			p->ve.cal = p->globve.cal;
